@@ -24,6 +24,7 @@ import ASV.Proofs.RotationRing
 import ASV.Proofs.RotateLoc
 import ASV.Model.Pipeline
 import ASV.Proofs.RulesetSelection
+import ASV.Proofs.RuleOrderPerm
 import ASV.Props.C02
 namespace ASV.C07
 open ASV ASV.Rules ASV.Proto ASV.Chains
@@ -292,6 +293,52 @@ theorem superiors_step_is_identity_without_superiors (within : Lookup) (rules : 
     (hf : ∀ pc ∈ clusters, ∃ fl, firstLast within pc = .ok fl) :
     removeRedundant within rules clusters = .ok clusters :=
   removeRedundant_no_superiors within rules clusters hr hf
+
+/-! ### towards `hdet` of `pipeline_rule_order_invariant_partial`: the stages of a detection run under a
+    re-ordering of the ruleset (second deepening round) -/
+
+/-- what a successful detection run on a record with hits consists of: rule evaluation, the first loop of
+    `find_protoclusters` (`foundOf`), `merge_over_origin`, `apply_extenders`, `merge_over_origin`,
+    `remove_redundant_protoclusters`; the reported protoclusters are the kept ones -/
+theorem detection_run_stages (within : Lookup) (r : Rec) (rules : List RuleM) (s : Stages)
+    (hne : r.genes.isEmpty = false) (hres : (r.genes.filter (·.hasRes)).isEmpty = false)
+    (h : detectStages within r rules = .ok s) :
+    ∃ (res : RuleResults) (found0 : List (List PC)) (found ext0 : List PC) (d : Doms) (ext kept : List PC),
+      ruleResults within r rules = .ok res ∧ foundOf r rules res = .ok found0 ∧
+      Proto.mergeOverOrigin r rules found0.flatten = .ok found ∧
+      applyExtenders within r rules found = .ok (ext0, d) ∧
+      Proto.mergeOverOrigin r rules ext0 = .ok ext ∧
+      removeRedundant within rules ext = .ok kept ∧
+      s.final.map (·.pc) = kept :=
+  detectStages_stages within r rules s hne hres h
+
+/-- **The first loop of `find_protoclusters` does not depend on the order of the rules** (any record): for a
+    ruleset and any rearrangement of it — rule names identify rules, rule evaluation ran through for both —
+    the loop succeeds for both or neither, and the protoclusters it forms, all rules together, are the same
+    multiset (each rule's cores by the sweep, each with its neighbourhood). -/
+theorem first_loop_rule_order_invariant (within : Lookup) (r : Rec) (rules rules' : List RuleM)
+    (hp : rules.Perm rules') (hd : NamesDistinct rules) (res res' : RuleResults)
+    (h : ruleResults within r rules = .ok res) (h' : ruleResults within r rules' = .ok res')
+    (found : List (List PC)) (hf : foundOf r rules res = .ok found) :
+    ∃ found', foundOf r rules' res' = .ok found' ∧ found.flatten.Perm found'.flatten :=
+  foundOf_perm within r rules rules' hp hd res res' h h' found hf
+
+/-- **`apply_extenders` does not depend on the order of the protoclusters or of the rules**: on a rearranged
+    list of protoclusters and with any ruleset that names the same rule for each of them (in particular a
+    re-ordered one), it succeeds again and yields a rearrangement of the extended protoclusters and of the
+    recorded extender domains. -/
+theorem extenders_rule_order_invariant (within : Lookup) (r : Rec) (rules rules' : List RuleM)
+    (clusters clusters' : List PC) (hp : clusters.Perm clusters')
+    (hrule : ∀ pc ∈ clusters, ∃ rule, findRule rules pc.rule = .ok rule ∧ findRule rules' pc.rule = .ok rule)
+    (out : List PC) (doms : Doms) (h : applyExtenders within r rules clusters = .ok (out, doms)) :
+    ∃ out' doms', applyExtenders within r rules' clusters' = .ok (out', doms') ∧ out.Perm out' ∧ doms.Perm doms' :=
+  applyExtenders_perm within r rules rules' clusters clusters' hp hrule out doms h
+
+/-- a possibly failing step mapped over a rearranged list succeeds again and gives a rearrangement (the
+    shape of every per-item loop of the detection code) -/
+theorem per_item_loops_commute_with_reordering {α β : Type} (f : α → E β) {l l' : List α} (hp : l.Perm l')
+    (out : List β) (h : l.mapM f = .ok out) : ∃ out', l'.mapM f = .ok out' ∧ out.Perm out' :=
+  mapM_perm f hp out h
 
 /-- **The only sanctioned cross-rule effect, definition-domain side** (`strip_inferior_domains`): the
     domains recorded for (gene, rule) are removed exactly when the gene also has an entry for one of the
@@ -947,6 +994,16 @@ example :
     a.toOption.map (fun res => res.outs.map (·.pc.rule)) = some ["r1", "r3"] ∧
     b.toOption.map (fun res => res.outs.map (·.pc.rule)) = some ["r3", "r1"] ∧
     a.toOption.map (fun res => res.cands.map (·.members.map (·.product))) = some [["r1", "r3"]] := by
+  decide +kernel
+
+/-- non-vacuity of `first_loop_rule_order_invariant` on D1's layout: the loop forms one protocluster per
+    20 kb rule, listed in the order of the rules -/
+example :
+    let run := fun (rules : List RuleM) =>
+      (ruleResults (withinSpec d1Rec) d1Rec rules).toOption.bind fun res =>
+        (foundOf d1Rec rules res).toOption.map fun f => f.flatten.map (·.rule)
+    run [d1Rule "r1" 20000, d1Rule "r2" 2000, d1Rule "r3" 20000] = some ["r1", "r3"] ∧
+    run [d1Rule "r3" 20000, d1Rule "r1" 20000, d1Rule "r2" 2000] = some ["r3", "r1"] := by
   decide +kernel
 
 end ASV.C07
